@@ -5,6 +5,8 @@ import (
 	"fmt"
 	"math/big"
 	"strings"
+	"time"
+	_ "time/tzdata"
 	dtpb "github.com/google/fhir/go/proto/google/fhir/proto/r4/core/datatypes_go_proto"
 	"github.com/verily-src/fhirpath-go/fhirpath"
 	"github.com/verily-src/fhirpath-go/fhirpath/evalopts"
@@ -23,7 +25,7 @@ func init() {
 		Assumptions: []string{"a sub-day unit added to a Date may be converted or rejected; definite UCUM codes may be rejected or treated like their keyword; results outside 0001..9999 may be error or empty",
 			"fractional amounts: whole part used, except fractional seconds on second/millisecond precision (either reading accepted)"},
 		Run:    runC09,
-		Checks: map[string]func(*core.Env, []json.RawMessage){"arith": replayC09, "qty": replayC09Qty, "qtyelem": func(env *core.Env, a []json.RawMessage) { c09QuantityElements(env) }},
+		Checks: map[string]func(*core.Env, []json.RawMessage){"arith": replayC09, "qty": replayC09Qty, "qtyelem": func(env *core.Env, a []json.RawMessage) { c09QuantityElements(env) }, "nowarith": func(env *core.Env, a []json.RawMessage) { c09NowArithmetic(env) }},
 		Threshold: func(m *core.Merged) []string {
 			var r []string
 			for _, k := range []string{"kind:Date", "kind:DateTime", "kind:Time", "clamp", "finer-unit", "coarser-unit", "non-temporal-unit", "inverse-law", "monotone", "wrap-midnight", "offset-preserved", "quantity-arith"} {
@@ -303,6 +305,9 @@ func runC09(env *core.Env) {
 	if env.Shard == 1%env.NShards {
 		c09QuantityElements(env)
 	}
+	if env.Shard == 2%env.NShards {
+		c09NowArithmetic(env)
+	}
 }
 
 func c09Monotone(env *core.Env, kind, xText, unit string) {
@@ -400,6 +405,43 @@ func c09QuantityElements(env *core.Env) {
 					}
 					if !fx.Same(re, rl) {
 						env.Violatef("C09/quantity-element/amount-differs-from-literal", "`%s %s %%q` with q = Quantity element {value %q, unit %s} gives %s; `%s %s %d %s` gives %s", x, op, c.val, u, trunc(re.Short(), 80), x, op, c.n, u, trunc(rl.Short(), 80))
+					}
+				}
+			}
+		}
+	}
+}
+
+// c09NowArithmetic: now() is a DateTime with the offset the evaluation instant carries; arithmetic on it is arithmetic
+// on that literal (the location's other rules - daylight saving - play no part).
+func c09NowArithmetic(env *core.Env) {
+	defer env.In("nowarith")()
+	env.Case()
+	for _, zn := range []string{"America/New_York", "Europe/Berlin", "Australia/Lord_Howe", "UTC", "Asia/Kolkata"} {
+		loc, err := time.LoadLocation(zn)
+		if err != nil {
+			env.Skip("zone-not-available")
+			continue
+		}
+		for _, t := range []time.Time{time.Date(2024, 3, 9, 12, 30, 15, 250000000, loc), time.Date(2024, 11, 2, 1, 30, 0, 0, loc), time.Date(2024, 3, 30, 23, 59, 59, 999000000, loc), time.Date(2024, 7, 1, 0, 0, 0, 0, loc)} {
+			_, off := t.Zone()
+			sgn := "+"
+			if off < 0 {
+				sgn, off = "-", -off
+			}
+			lit := fmt.Sprintf("@%s%s%02d:%02d", t.Format("2006-01-02T15:04:05.000"), sgn, off/3600, off%3600/60)
+			o := []fhirpath.EvaluateOption{evalopts.OverrideTime(t)}
+			for _, q := range []string{"1 day", "24 hours", "1 month", "6 months", "1 week", "36 hours", "1 year", "90 minutes", "250 days"} {
+				for _, op := range []string{"+", "-"} {
+					rn := fx.Eval(env, "now() "+op+" "+q, nil, nil, o)
+					rl := fx.E(env, lit+" "+op+" "+q)
+					env.Cover("now-arithmetic")
+					if rn.IsPanic() {
+						env.Violatef(fx.PanicSig("C09", rn), "`now() %s %s` with OverrideTime(%s) => %s", op, q, t.Format(time.RFC3339Nano), rn.Short())
+						continue
+					}
+					if !fx.Same(rn, rl) {
+						env.Violatef("C09/now-arithmetic/differs-from-literal", "`now() %s %s` with OverrideTime(%s in %s) = %s; `%s %s %s` = %s", op, q, t.Format(time.RFC3339Nano), zn, trunc(rn.Short(), 80), lit, op, q, trunc(rl.Short(), 80))
 					}
 				}
 			}
